@@ -417,6 +417,32 @@ fn check_synthetic(steps: &[u64], base: usize, rep: &mut Report) {
     rep.sample(|| format!("synthetic steps at {:?}: {} change points expected", &steps[..steps.len().min(8)], truth.len()));
 }
 
+/// Step functions with arbitrary (strictly increasing) values, up to and including usize::MAX - a
+/// function may well use the largest value for "not representable".
+fn check_synthetic_vals(steps: &[u64], vals: &[usize], rep: &mut Report) {
+    assert!(vals.len() == steps.len() + 1);
+    let st: Vec<u64> = steps.to_vec();
+    let vs: Vec<usize> = vals.to_vec();
+    let f = move |n: u64| vs[st.partition_point(|s| *s <= n)];
+    let mut truth = vec![(0u64, f(0))];
+    for s in steps {
+        truth.push((*s, f(*s)));
+    }
+    let desc = format!("steps{:?}->values{:?}", &steps[..steps.len().min(6)], &vals[..vals.len().min(7)]);
+    let kvf = || {
+        format!(
+            "part=synthvals steps={} vals={}",
+            if steps.is_empty() { "-".to_string() } else { steps.iter().map(|s| s.to_string()).collect::<Vec<_>>().join(",") },
+            vals.iter().map(|s| s.to_string()).collect::<Vec<_>>().join(",")
+        )
+    };
+    judge_iterator(&desc, "synthetic-values", &f, &truth, true, rep, &kvf);
+    rep.case(&("synthvals", steps.to_vec(), vals.to_vec()));
+    if vals.last() == Some(&usize::MAX) {
+        rep.count("step_functions_reaching_usize_max", 1);
+    }
+}
+
 #[derive(Clone, Debug, PartialEq)]
 enum Item {
     Lengths(usize),
@@ -467,6 +493,21 @@ pub fn run(ctx: &Ctx) -> Report {
                     check_synthetic(&[s], 0, rep);
                 }
                 check_synthetic(&(1..=300).collect::<Vec<u64>>(), 0, rep);
+                // values at the top of the range
+                const M: usize = usize::MAX;
+                check_synthetic_vals(&[], &[M], rep);
+                check_synthetic_vals(&[], &[M - 1], rep);
+                check_synthetic_vals(&[1], &[0, M], rep);
+                check_synthetic_vals(&[5], &[0, M], rep);
+                check_synthetic_vals(&[1], &[M - 1, M], rep);
+                check_synthetic_vals(&[3, 1 << 40], &[7, M - 1, M], rep);
+                check_synthetic_vals(&[(1 << 63) - 1], &[0, M], rep);
+                check_synthetic_vals(&[1 << 63], &[64, M], rep);
+                check_synthetic_vals(&[2, 3, 4], &[0, 1, M - 1, M], rep);
+                for k in 0..=63u32 {
+                    check_synthetic_vals(&[1u64 << k], &[k as usize, M], rep);
+                    check_synthetic_vals(&[(1u64 << k).max(2) - 1, 1u64 << k.max(1)], &[0, M / 2, M], rep);
+                }
             }
             for _ in 0..ctx.pick(5, 2000, 10000) {
                 let n = rng.below(12) as usize;
@@ -484,6 +525,22 @@ pub fn run(ctx: &Ctx) -> Report {
                 steps.sort_unstable();
                 steps.dedup();
                 check_synthetic(&steps, rng.below(4) as usize, rep);
+                // the same step positions with arbitrary increasing values, often ending at usize::MAX
+                let mut vals: Vec<usize> = (0..=steps.len()).map(|_| rng.log_uniform(63) as usize).collect();
+                vals.sort_unstable();
+                vals.dedup();
+                while vals.len() < steps.len() + 1 {
+                    let l = *vals.last().unwrap();
+                    vals.push(l + 1 + rng.below(5) as usize);
+                }
+                if rng.chance(1, 2) {
+                    let l = vals.len();
+                    vals[l - 1] = usize::MAX;
+                    if l >= 2 && rng.chance(1, 2) {
+                        vals[l - 2] = usize::MAX - 1;
+                    }
+                }
+                check_synthetic_vals(&steps, &vals, rep);
             }
         }
     })
@@ -492,6 +549,11 @@ pub fn run(ctx: &Ctx) -> Report {
 pub fn replay(case: &str, rep: &mut Report) {
     let kv = Kv::parse(case);
     match kv.get("part") {
+        "synthvals" => {
+            let steps: Vec<u64> = if kv.get("steps") == "-" { vec![] } else { kv.get("steps").split(',').map(|s| s.parse().unwrap()).collect() };
+            let vals: Vec<usize> = kv.get("vals").split(',').map(|s| s.parse().unwrap()).collect();
+            check_synthetic_vals(&steps, &vals, rep);
+        }
         "synthetic" => {
             let steps: Vec<u64> = if kv.get("steps") == "-" { vec![] } else { kv.get("steps").split(',').map(|s| s.parse().unwrap()).collect() };
             check_synthetic(&steps, kv.usize("base"), rep);
